@@ -130,6 +130,41 @@ def wellformed_layout2(nheaders: int, nblank: int, sp1: int, sp2: int, blocks: i
     """
     return _wellformed(246, 1, 2, _conc(nheaders, 1, 2), _conc(nblank, 0, 1), _conc(sp1, -1, 5), _conc(sp2, -1, 5), _conc(blocks, 1, 2))
 
+def wellformed_zero(pos: int, nblocks: int, nblank: int) -> bool:
+    """
+    pre: 0 <= pos <= 2 and 0 <= nblocks <= 2 and 0 <= nblank <= 1
+    post: _
+    """
+    # a zero-vertex block (documented as handled) before / between / after ordinary blocks
+    p, nbk, nb = _conc(pos, 0, 2), _conc(nblocks, 0, 2), _conc(nblank, 0, 1)
+    with NoTracing():
+        es = [("s", "a", 1), ("a", "t", 2)]
+        blocks = [_block("g" + str(i), es, 1, 0, [], 3) for i in range(nbk)]
+        zero = ["# z\\n"] + ["\\n"] * nb + ["0\\n"]
+        p = min(p, nbk)
+        allb = []
+        for i, b_ in enumerate(blocks[:p]):
+            allb += b_
+        allb += zero
+        for b_ in blocks[p:]:
+            allb += b_
+        import io
+        text = "".join(allb)
+        gu.open = lambda fn, mode="r": io.StringIO(text)
+        try:
+            Gs = gu.read_graphs("in-memory.graph")
+        finally:
+            del gu.open
+        if len(Gs) != nbk + 1:
+            return False
+        Z = Gs[p]
+        if Z.graph.get("id") != "z" or Z.number_of_nodes() != 0 or Z.number_of_edges() != 0 or Z.graph.get("constraints") != []:
+            return False
+        if Z.graph.get("n") != 0 or Z.graph.get("m") != 0:
+            return False
+        others = [g for i, g in enumerate(Gs) if i != p]
+        return all(_expect(g, "g" + str(i), es, []) for i, g in enumerate(others))
+
 def wellformed_count(mask: int, dn: int, blocks: int) -> bool:
     """
     pre: 0 <= mask < 16
@@ -172,11 +207,11 @@ def _wellformed(m, a, b, nh, nb, s1, s2, bl, dn=0):
 def malformed(mask: int, kind: int, which: int) -> bool:
     """
     pre: 0 <= mask < 64
-    pre: 0 <= kind <= 10
+    pre: 0 <= kind <= 11
     pre: 0 <= which <= 2
     post: _
     """
-    m, kd, wh = _conc(mask, 0, 63), _conc(kind, 0, 10), _conc(which, 0, 2)
+    m, kd, wh = _conc(mask, 0, 63), _conc(kind, 0, 11), _conc(which, 0, 2)
     with NoTracing():
         es = _edges(m, [1, 2, 3])
         nodes = {{x for (u, v, _w) in es for x in (u, v)}}
@@ -200,6 +235,8 @@ def malformed(mask: int, kind: int, which: int) -> bool:
             lines[1] = str(len(nodes)) + " vertices\\n"            # trailing text on the vertex-count line
         elif kd == 7:
             del lines[1]                                           # vertex-count line missing: an edge line is found instead
+        elif kd == 11:
+            lines = ["# g\\n", "#S " + u + " " + v + "\\n", "0\\n"]     # zero-vertex block whose constraint names an edge it cannot contain
         elif kd == 9:
             lines.insert(1, "#S " + v + " " + u + "\\n")             # constraint names the edge backwards (both nodes exist, the edge does not)
             if any((a, b_) == (v, u) for (a, b_, _w) in es):
@@ -254,12 +291,12 @@ def symbolic_edge_line(line: str) -> bool:
             return G.has_edge(toks[0], toks[1]) and G[toks[0]][toks[1]]["flow"] == float(toks[2])
         return set(G.edges()) == {{("s", "t")}}
 
-wellformed_edges(3, 1); wellformed_layout(1, 0, -1, -1, 1, 131); wellformed_count(3, 1, 1); malformed(3, 0, 0); symbolic_edge_line("a b 1")
+wellformed_edges(3, 1); wellformed_layout(1, 0, -1, -1, 1, 131); wellformed_count(3, 1, 1); wellformed_zero(0, 1, 0); malformed(3, 0, 0); symbolic_edge_line("a b 1")
 '''
 
 
 def gen_tasks(tier, seed):
-    tasks = [{"fn": "wellformed_edges"}, {"fn": "wellformed_edges_hi"}, {"fn": "wellformed_layout"}, {"fn": "wellformed_layout2"}, {"fn": "wellformed_count"}, {"fn": "malformed"}, {"fn": "symbolic_edge_line"}]
+    tasks = [{"fn": "wellformed_edges"}, {"fn": "wellformed_edges_hi"}, {"fn": "wellformed_layout"}, {"fn": "wellformed_layout2"}, {"fn": "wellformed_count"}, {"fn": "wellformed_zero"}, {"fn": "malformed"}, {"fn": "symbolic_edge_line"}]
     for i, t in enumerate(tasks):
         t["tid"] = i
     return tasks
@@ -280,7 +317,8 @@ def run_task(task):
             "wellformed_layout2": "as wellformed_layout on the second edge set (mask 246)",
             "wellformed_layout": "symbolic header count, blank-line count, two independent '#S' selectors (duplicates and sequences whose concatenation collides), number of blocks (1-2, read through read_graphs), on edge set 131",
             "wellformed_count": "symbolic edge subset (16 masks), vertex-count line = number of nodes + d with d symbolic in -1..2 (isolated vertices declared / stale count), 1-2 blocks: stored counts must describe the returned graph",
-            "malformed": "symbolic edge subset, corruption kind 0..10 (token counts, non-numeric weight / count, count with trailing text, missing count line, constraint naming an unknown node / a reversed edge / a repeated node), corrupted line index", "symbolic_edge_line": "one fully symbolic edge line of <= 5 characters"}[task["fn"]]
+            "wellformed_zero": "a zero-vertex block at a symbolic position among 0-2 ordinary blocks (read through read_graphs): empty graph, id kept, stored counts 0",
+            "malformed": "symbolic edge subset, corruption kind 0..10 (token counts, non-numeric weight / count, count with trailing text, missing count line, constraint naming an unknown node / a reversed edge / a repeated node, zero-vertex block with a constraint), corrupted line index", "symbolic_edge_line": "one fully symbolic edge line of <= 5 characters"}[task["fn"]]
     res["samples"].append({"harness": task["fn"], "symbolic": what, "verdict": v["verdict"], "cpu_s": round(cpu, 1)})
     if v["verdict"] == "confirmed":
         res["discharged"] += 1
